@@ -434,12 +434,14 @@ def retOk (G : LGraph) (c : Nat) (j : Int) : Bool :=
   (List.range G.nodes.size).all fun a =>
     ((G.node a).ins.all fun e => e.1 != c || e.2 == j) && ((G.node a).outs.all fun e => e.1 != c || e.2 == j)
 
-/-- no in-edge and no out-edge of any node mentions argument node `a`: the only way to reach it is
-from a parameter of the callee (through the call site's argument list), and then the guard of the
-`In()` loop of the CallNodeArg case (`argInOk`) holds. -/
+/-- argument node `a` is the source of no in-edge and the target of no out-edge of a bound argument
+(the only out-edges the traversal follows): the only way to reach it is from a parameter of the
+callee (through the call site's argument list), and then the guard of the `In()` loop of the
+CallNodeArg case (`argInOk`) holds. -/
 def argOnlyFromParam (G : LGraph) (a : Nat) : Bool :=
   (List.range G.nodes.size).all fun m =>
-    ((G.node m).ins.all fun e => e.1 != a) && ((G.node m).outs.all fun e => e.1 != a)
+    ((G.node m).ins.all fun e => e.1 != a) &&
+    (!(G.kind m == .arg && (G.node m).bound) || (G.node m).outs.all fun e => e.1 != a)
 
 def argInAll (G : LGraph) (cur : VNode) : List Cand :=
   (G.node cur.node).ins.map fun e => { mk cur e.1 with trace := cur.trace.tail, recIdx := some e.2 }
